@@ -34,11 +34,11 @@ func init() {
 		return Eligibility{M: raw.M, MaxVals: raw.MaxValidators, Set: raw.Set, Epoch: raw.Epoch}, nil
 	})
 	register("C02", func(tier string) CheckSpec {
-		depth, budget := 3, 200*time.Second
+		depth, budget := 3, 270*time.Second
 		if tier == "thorough" {
 			depth, budget = 5, 20*time.Minute
 		}
-		return CheckSpec{Level: "model_checking", Rule: searchRule, Assumptions: commonAssumptions, Budget: budget, Units: eligibilityUnits(depth),
+		return CheckSpec{Level: "model_checking", Rule: searchRule, Assumptions: commonAssumptions, Budget: budget, Units: append(eligibilityUnits(depth), Search{Sc: Keys{Variant: "removal"}, Depth: depth + 3}),
 			MustSee: []string{"member", "member-with-assigned-key", "excluded-only-because-inactive", "excluded-by-lists", "excluded-by-minstake", "excluded-not-bonded", "launch-checked", "non-epoch-block"}}
 	})
 }
